@@ -134,7 +134,7 @@ type lineSpec struct {
 
 var (
 	coreAlpha  = []string{"1", "0", "2", "", "x", "01", "+1", "1.0", "99999999999999999999"}
-	verAlpha   = []string{"1", "7", "", "x", "-1", "01", "99999999999999999999", "2"}
+	verAlpha   = []string{"1", "7", "", "x", "-1", "01", "99999999999999999999", "2", "0", "00", "3"}
 	netAlpha   = []string{"tcp", "unix", "", "udp", "TCP", "tcp4", "unixgram"}
 	addrAlpha  = []string{"127.0.0.1:1234", ":1234", "/tmp/s.sock", "", "256.0.0.1:1", "127.0.0.1:99999", "[::1]:80", "127.0.0.1"}
 	protoAlpha = []string{"netrpc", "\x00", "", "grpc", "GRPC", "bogus"}
